@@ -31,6 +31,8 @@ import (
 var (
 	Leaves   []*Op
 	Wrappers []*Op // KWrap and KMulti ops (both take an inner term)
+	// Quirks are wrapper ops kept out of the general spaces (Op.QuirkOf).
+	Quirks []*Op
 )
 
 func reg(op *Op) *Op {
@@ -38,9 +40,12 @@ func reg(op *Op) *Op {
 		panic("duplicate op " + op.Name)
 	}
 	OpByName[op.Name] = op
-	if op.Kind == KLeaf {
+	switch {
+	case op.QuirkOf != "":
+		Quirks = append(Quirks, op)
+	case op.Kind == KLeaf:
 		Leaves = append(Leaves, op)
-	} else {
+	default:
 		Wrappers = append(Wrappers, op)
 	}
 	return op
@@ -545,7 +550,25 @@ func init() {
 			n.Safe = s
 			return n
 		}})
-	reg(&Op{Name: "net.OpError", Kind: KWrap, Slots: slots(safe("op", "net"), unsafe("src", "addr")), Class: "foreign-prefix", Unreg: true,
+	reg(&Op{Name: "net.OpError", Kind: KWrap, Slots: slots(safe("op", "net"), unsafe("addr")), Class: "foreign-prefix", Unreg: true,
+		Build: func(s []string, c error, _ []error) error {
+			return &net.OpError{Op: s[0], Net: s[1], Addr: Addr{s[2]}, Err: c}
+		},
+		Model: func(s []string, c *Node, _ []*Node) *Node {
+			own := s[0]
+			if s[1] != "" {
+				own += " " + s[1]
+			}
+			own += " " + s[2]
+			n := Prefix(own, c)
+			n.Text = own + ": " + c.Text
+			n.Safe, n.Unsafe = s[:2], s[2:]
+			return n
+		}})
+	// With a Source address net.OpError.Error() prints "src->addr" while
+	// the library's special-case printer prints "src -> addr" (pinned by
+	// safedetails.TestRedact): explored in the quirk pass.
+	reg(&Op{Name: "net.OpError_src", Kind: KWrap, Slots: slots(safe("op", "net"), unsafe("src", "addr")), Class: "foreign-prefix", Unreg: true, QuirkOf: "net.OpError",
 		Build: func(s []string, c error, _ []error) error {
 			return &net.OpError{Op: s[0], Net: s[1], Source: Addr{s[2]}, Addr: Addr{s[3]}, Err: c}
 		},
